@@ -155,9 +155,8 @@ mutual
         ((rowContentCells cellsOf ri).map fun (r, c) => ((cellSp[r]?).getD [])[c]?.getD []))
 end
 
-/-- `_build_map` -/
-def buildSpans (clean : Bool) (d : Document) : List Span :=
-  let cm := commentsMap d
+/-- `_build_map` with the comment data the mapper holds (extracted once, when the mapper is constructed) -/
+def buildSpansWith (cm : CMap) (clean : Bool) (d : Document) : List Span :=
   let rec go : List (List Block) → Nat → Nat → List Span
     | [], _, _ => []
     | part :: rest, pi, emitted =>
@@ -165,6 +164,9 @@ def buildSpans (clean : Bool) (d : Document) : List Span :=
       if (spansText sp).isEmpty then go rest (pi + 1) emitted
       else (if emitted > 0 then [sepSpan ['\n', '\n'] none] else []) ++ sp ++ go rest (pi + 1) (emitted + 1)
   go (docParts d) 0 0
+
+/-- `_build_map` of a mapper constructed on this document -/
+def buildSpans (clean : Bool) (d : Document) : List Span := buildSpansWith (commentsMap d) clean d
 
 def mapperText (clean : Bool) (d : Document) : Str := spansText (buildSpans clean d)
 
